@@ -1,9 +1,201 @@
-(** C12 — structured multi-line fields round-trip as records and can always be dumped. *)
+(** C12 — Structured multi-line fields round-trip as records and can always be dumped.
+    Only statements; every proof is [exact <lemma>] (or a two-line composition).
+
+    Model: Deb822/Multivalued.v (the functions MvCheck.agree runs: [get_as_string],
+    [dump_para], [mv_parse_field], [mv_init], [build], [fixed_field_lengths]);
+    tables: Gen/MvTables.v (regenerated from the source on every run);
+    spec: Deb822/MvSpec.v (the documented sub-field names, the documented text
+    [spec_value]/[spec_dump], the property's domain [in_domain], which are what
+    MvCheck.holds evaluates); proofs: Deb822/MvProofs.v.
+
+    "for every class and every field of the regenerated tables" is the hypothesis
+    [lookup_exact (ascii_lower key) (table_of c) = Some order] with [c], [key] universally
+    quantified; the facts about the tables that the proofs use are established by a
+    complete sweep of the (finite) regenerated tables (theorem 0). *)
+From Coq Require Import String.
 From Verif Require Import Lib.Base Lib.PyStr Lib.Dec Gen.PyChars Gen.MvTables
   Deb822.Multivalued Deb822.MvSpec Deb822.MvProofs.
+
+(** 0. The tie to the source.  The regenerated tables ARE the documented ones (field
+       names in lower case, documented sub-field names in the documented order); every
+       field name is lower-case and occurs once, the sub-field names of a field differ
+       even up to case, and every field of a class that defines [_fixed_field_lengths]
+       has the size sub-field; the classes that define it are the two transcribed. *)
+Theorem C12_tables_are_documented : forall c, table_of c = doc_lower c.
+Proof. exact tables_match_doc. Qed.
+
+Theorem C12_tables_well_formed : forall c, table_ok c = true.
+Proof. exact tables_ok. Qed.
 
 Theorem C12_ffl_kind_matches_tables : forall c,
   has_ffl c = match ffl_kind c with Some _ => true | None => false end.
 Proof. exact ffl_kind_matches_tables. Qed.
 
+(** 1. record_roundtrip.  For every class, every field of its table, every object in
+       which that field holds a non-empty list of records giving one non-empty
+       whitespace-free value per documented sub-field (and whose other present fields
+       are dumpable): the field is printed, and parsing the printed value yields the
+       same records in the same order.  Holds for both size_field_behaviors and for
+       records held as dicts or Deb822Dicts. *)
+Theorem C12_record_roundtrip :
+  forall c b ci p key order row rows,
+    lookup_exact (ascii_lower key) (table_of c) = Some order ->
+    para_get key p = Some (Multi (spec_records order (row :: rows))) ->
+    forallb (row_ok order) (row :: rows) = true ->
+    para_dumpable c ci p = true ->
+    exists s, get_as_string c b ci p key = Ok s
+              /\ mv_parse_field order s = Multi (spec_records order (row :: rows)).
+Proof. exact record_roundtrip. Qed.
+
+(** 1b. Parsing exposes each line as a record with the documented sub-field names:
+        for ANY stored value of a structured field whose continuation lines each hold
+        exactly one value per sub-field ([spec_rows] reads it that way), the constructor
+        stores the list of records [documented names x values], line by line. *)
+Theorem C12_parse_exposes_records :
+  forall c key order contents rows,
+    lookup_exact (ascii_lower key) (table_of c) = Some order ->
+    spec_rows order contents = Some rows ->
+    mv_parse_field order contents = Multi (spec_records order rows).
+Proof. exact parse_exposes_records. Qed.
+
+(** 1c. The constructor on a whole paragraph (pairs as Deb822 stored them, distinct
+        field names): every structured field of the class that is present is replaced by
+        its records, all other fields and the order of the fields are kept, and nothing
+        is raised — whichever structured fields are present. *)
+Theorem C12_init_parses_each_field :
+  forall c raw,
+    distinct_keys (map fst raw) = true ->
+    mv_init (table_of c) raw = Ok (map (parse_entry (table_of c)) raw).
+Proof. exact mv_init_map. Qed.
+
+(** 2. dump_total_on_subsets.  [para_dumpable] constrains only the entries that ARE in the
+       paragraph (a structured field present must be a non-empty list of records that
+       have every sub-field, LF-free; any other field a string); it asks nothing about
+       the class's structured fields that are absent.  So for EVERY subset of the
+       structured fields being present — and any record contents, duplicates, key
+       spellings — dump raises nothing.  (On the tree before the fix this fails for
+       PdiffIndex and Release/dak: D8.) *)
+Theorem C12_dump_total_on_subsets :
+  forall c b ci p, para_dumpable c ci p = true -> is_ok (dump_para c b ci p) = true.
+Proof. exact dump_para_total. Qed.
+
+(** every paragraph of the property's domain is dumpable *)
+Theorem C12_domain_is_dumpable :
+  forall c ci p sp, in_domain c p = Some sp -> para_dumpable c ci p = true.
+Proof. exact in_domain_dumpable. Qed.
+
+(** 3. size_right_aligned.  The printed value of a structured field is exactly the
+       documented text [spec_value]: one line per record, a blank before every value, and
+       in Release / pdiff Index files the size value right-justified ([rjust]: blanks on
+       the left, the value on the right) to the documented width. *)
+Theorem C12_size_right_aligned :
+  forall c b ci p key order row rows,
+    lookup_exact (ascii_lower key) (table_of c) = Some order ->
+    para_get key p = Some (Multi (spec_records order (row :: rows))) ->
+    forallb (row_ok order) (row :: rows) = true ->
+    para_dumpable c ci p = true ->
+    get_as_string c b ci p key = Ok (spec_value c b order (row :: rows)).
+Proof. exact get_as_string_documented. Qed.
+
+(** the documented width: 16 for Release/apt-ftparchive, the longest size present in
+    the field for Release/dak and PdiffIndex, none elsewhere *)
+Theorem C12_width_rule :
+  forall c b order rows,
+    spec_width c b order rows
+    = match c, b with
+      | Release, Apt => Some 16
+      | Release, Dak | PdiffIndex, _ => Some (longest (sizes_of order rows))
+      | _, _ => None
+      end.
+Proof. exact spec_width_cases. Qed.
+
+(** the column is [max w |size|] wide; with the longest-present rule every size of
+    the field occupies exactly the same width *)
+Theorem C12_column_width : forall w t, length (rjust w t) = Nat.max w (length t).
+Proof. exact rjust_length. Qed.
+
+Theorem C12_column_width_longest :
+  forall order rows t, In t (sizes_of order rows) ->
+    length (rjust (longest (sizes_of order rows)) t) = longest (sizes_of order rows).
+Proof. exact size_column_exact. Qed.
+
+(** 4. The whole paragraph, for every paragraph [p] of the property's domain
+       ([in_domain c p = Some sp]: distinct field names; every present structured field a
+       non-empty list of records with exactly the documented sub-fields and non-empty
+       whitespace-free values; plain fields simple):
+       (a) assigning its fields one by one to an empty object raises nothing and gives [p];
+       (b) its dump is the documented text [spec_dump] (so: total, aligned);
+       (c) the constructor, given the (field, raw value) pairs of that text, gives back
+           [p]: same fields, same records, same order.
+       What is NOT proved here: that Deb822's text parser splits [spec_dump c b sp] into
+       exactly the pairs [spec_raw c b sp] — that is C02's parser (the correspondence
+       check observes it on every case: MvCheck.stage2_agree starts from
+       Deb822(text).items()). *)
+Theorem C12_build_in_domain :
+  forall c p sp, in_domain c p = Some sp -> build c p = Ok p.
+Proof. exact build_in_domain. Qed.
+
+Theorem C12_dump_is_documented_text :
+  forall c b ci p sp, in_domain c p = Some sp -> dump_para c b ci p = Ok (spec_dump c b sp).
+Proof. exact dump_para_spec. Qed.
+
+Theorem C12_paragraph_reparse :
+  forall c b p sp, in_domain c p = Some sp -> mv_init (table_of c) (spec_raw c b sp) = Ok p.
+Proof. exact reparse_in_domain. Qed.
+
+(** Non-vacuity.  A pdiff Index in which only 2 of the 14 structured fields are present
+    (the situation of D8), sizes of different lengths, a plain field in between, mixed
+    key spelling: it is in the domain, it is dumpable, the dump is the text shown (size
+    column right-aligned to the longest size of EACH field), and re-parsing gives the
+    paragraph back.  And a Release file under "dak" with only MD5Sum present. *)
+Local Open Scope string_scope.
+Example C12_nonvacuous_pdiff :
+  let s := dec in
+  let p : para :=
+    [(s "SHA1-Current", Multi [[(s "SHA1", s "abc"); (s "size", s "12345")]]);
+     (s "Origin", Plain (s "Debian"));
+     (s "sha256-history",
+      Multi [[(s "SHA256", s "d1"); (s "size", s "7"); (s "date", s "2026-01-01")];
+             [(s "SHA256", s "d2"); (s "size", s "1234"); (s "date", s "2026-01-02")]])] in
+  match in_domain PdiffIndex p with None => False | Some sp =>
+    sp = [(s "SHA1-Current", SRows [[s "abc"; s "12345"]]);
+          (s "Origin", SText (s "Debian"));
+          (s "sha256-history", SRows [[s "d1"; s "7"; s "2026-01-01"]; [s "d2"; s "1234"; s "2026-01-02"]])]
+    /\ para_dumpable PdiffIndex true p = true
+    /\ build PdiffIndex p = Ok p
+    /\ dump_para PdiffIndex Apt true p
+       = Ok (s "SHA1-Current:\00000a abc 12345\00000aOrigin: Debian\00000asha256-history:\00000a d1    7 2026-01-01\00000a d2 1234 2026-01-02\00000a")
+    /\ mv_init (table_of PdiffIndex) (spec_raw PdiffIndex Apt sp) = Ok p
+  end.
+Proof. vm_compute. repeat split. Qed.
+
+Example C12_nonvacuous_release :
+  let s := dec in
+  let p : para :=
+    [(s "MD5Sum", Multi [[(s "md5sum", s "0f"); (s "size", s "5"); (s "name", s "main/a")];
+                         [(s "md5sum", s "1e"); (s "size", s "123"); (s "name", s "main/b")]])] in
+  match in_domain Release p with None => False | Some sp =>
+    dump_para Release Dak false p = Ok (s "MD5Sum:\00000a 0f   5 main/a\00000a 1e 123 main/b\00000a")
+    /\ dump_para Release Apt false p
+       = Ok (s "MD5Sum:\00000a 0f                5 main/a\00000a 1e              123 main/b\00000a")
+    /\ spec_rows (map s ["md5sum"; "size"; "name"]) (s "\00000a 0f   5 main/a\00000a 1e 123 main/b")
+       = Some [[s "0f"; s "5"; s "main/a"]; [s "1e"; s "123"; s "main/b"]]
+    /\ mv_init (table_of Release) (spec_raw Release Dak sp) = Ok p
+  end.
+Proof. vm_compute. repeat split. Qed.
+
+Print Assumptions C12_tables_are_documented.
+Print Assumptions C12_tables_well_formed.
 Print Assumptions C12_ffl_kind_matches_tables.
+Print Assumptions C12_record_roundtrip.
+Print Assumptions C12_parse_exposes_records.
+Print Assumptions C12_init_parses_each_field.
+Print Assumptions C12_dump_total_on_subsets.
+Print Assumptions C12_domain_is_dumpable.
+Print Assumptions C12_size_right_aligned.
+Print Assumptions C12_width_rule.
+Print Assumptions C12_column_width.
+Print Assumptions C12_column_width_longest.
+Print Assumptions C12_build_in_domain.
+Print Assumptions C12_dump_is_documented_text.
+Print Assumptions C12_paragraph_reparse.
